@@ -10,16 +10,17 @@
    * hs_desc(): UPLOAD adds to `attempted` only if the address matches the service's hostname (unknown
      = None before the reply unless the HiddenServiceDir already has a hostname file); UPLOADED is NOT
      checked against the address, only `dir in attempted`; FAILED is checked against the address;
-     completion tests: not await-all: first accepted UPLOADED; await-all: len(failed)+len(confirmed)
-     == len(attempted) in the UPLOADED branch, (failed|confirmed) == attempted (and confirmed
-     non-empty) in the FAILED branch; failed == attempted -> errback, tested first.
+     completion tests: not await-all: first accepted UPLOADED; await-all: (failed|confirmed) >=
+     attempted in the UPLOADED branch, (failed|confirmed) == attempted (and confirmed non-empty) in
+     the FAILED branch; failed == attempted -> errback, tested first.
    * when `uploaded` fires, the generator removes the listener at once (Event.unlisten; if it was the
      last callback `del events['HS_DESC']` and SETEVENTS is QUEUED: written immediately unless the
      creating command is still in flight, then it is written right after that command's reply), waits
      for the SETEVENTS reply, reports progress 100 on success, and only then does the Deferred the
      caller waits on fire.
    * create() waits first for the creating command, then for that Deferred.
-   * a rejected creating command fails create() at once; nobody removes the listener. *)
+   * a rejected creating command fails create() at once; the except clause around it cancels the
+     Deferred of _await_descriptor_upload, whose error path removes the listener (fix 3df3186). *)
 From Coq Require Import List Bool Arith NArith.
 From TxVerif Require Import Lib.ListSet Spec.C15.
 Import ListNotations.
@@ -103,7 +104,7 @@ Definition step_ev (c : cfg) (s : st) (k : kind) (a d : N) : st * list obs :=
         | Some _ => (s1, p)
         | None =>
             if c_await c then
-              if nlen (m_fail s) + nlen conf =? nlen (m_att s)
+              if ssub (m_att s) (sunion (m_fail s) conf)
               then let '(s2, o2) := fire c s1 true in (s2, p ++ o2)
               else (s1, p)
             else let '(s2, o2) := fire c s1 true in (s2, p ++ o2)
@@ -162,13 +163,26 @@ Definition step (c : cfg) (s : st) (o : op) : st * list obs :=
       match m_rep s with
       | Some _ => (set_oos s, [])
       | None =>
+          (* create() fails at once; its except clause cancels the Deferred of _await_descriptor_upload *)
           let s1 := set_created (set_mrep s false) in
-          if m_unsub_pending s then
-            match m_fired s with
-            | Some o => let '(s2, o2) := finish_wait c s1 o in (s2, ODone RRejected :: OSetEvents false :: o2)
-            | None => (s1, [ODone RRejected])
-            end
-          else (s1, [ODone RRejected])
+          match m_fired s with
+          | None =>
+              (* the generator waits on `uploaded`: it is errbacked (CancelledError), the error path removes the
+                 listener; the SETEVENTS is written once the rejected command has been cleared *)
+              ({| m_rep := m_rep s1; m_att := m_att s1; m_conf := m_conf s1; m_fail := m_fail s1;
+                  m_fired := Some false; m_listen := false; m_unsub_pending := false; m_upl_done := true;
+                  m_created := true; m_oos := m_oos s1 |},
+               ODone RRejected :: (if c_shared c then [] else [OSetEvents false]))
+          | Some _ =>
+              if m_unsub_pending s then
+                (* the generator waits on the queued SETEVENTS: that Deferred is cancelled (no progress report);
+                   the command itself stays queued and is written now *)
+                ({| m_rep := m_rep s1; m_att := m_att s1; m_conf := m_conf s1; m_fail := m_fail s1;
+                    m_fired := m_fired s1; m_listen := m_listen s1; m_unsub_pending := false; m_upl_done := true;
+                    m_created := true; m_oos := m_oos s1 |},
+                 [ODone RRejected; OSetEvents false])
+              else (s1, [ODone RRejected])       (* the wait is already over: cancel() is a no-op *)
+          end
       end
   end.
 
